@@ -36,6 +36,9 @@ func runC02(x *mc.X) {
 
 	w := world.New(world.Opt{})
 	defer w.Close()
+	if x.Tier() == "thorough" { // every second exchange through a second transport over the same store
+		w.Alternate = mc.Pick(x, "transports", []string{"one", "two"}) == "two"
+	}
 	lm := httpDate(w.Epoch.Add(-secs(100000)))
 	ccv := cc("max-age="+maxAge, noCache, ifs(mustReval, "must-revalidate"), ifs(swr, "stale-while-revalidate=100"), ifs(sie, "stale-if-error=100"), ifs(immutable, "immutable"))
 	h := H("Cache-Control", ccv, "Set-Cookie", "sid=secret1", "X-Secret", "secret2", "X-Plain", "p")
